@@ -177,6 +177,23 @@ def twin_records(W, d, scen, lines, use_memmap=True, specs=None):
     return out
 
 
+def sel_arg(sel):
+    """The selector as a caller might hand it over - same form, same value: a tuple or a list, the number as a python
+    float / int or a numpy scalar.  The representation is derived from the selector itself, so a replay uses the same."""
+    import zlib
+    form, val = sel[0], sel[1]
+    style = zlib.crc32(repr((form, val)).encode()) % 6
+    if form == 'N':
+        val = int(val)
+        v = [val, val, np.int64(val), np.int32(val), val, np.int64(val)][style]
+    elif form == 'A':
+        v = val
+    else:
+        val = float(val)
+        v = [val, val, np.float64(val), val, (int(val) if (abs(val) < 1e15 and val == int(val)) else val), np.float64(val)][style]
+    return [form, v] if style in (1, 5) else (form, v)
+
+
 def gen_selector(rng, n_models=8):
     form = rng.choice(['A', 'N', 'C', 'D', 'E', 'F'])
     if form == 'A':
@@ -206,7 +223,7 @@ def run_consumer(sim, op, arg, sel, tag, extra=None):
     od = sim.path('o_' + tag)
     shutil.rmtree(od, ignore_errors=True)
     os.makedirs(od)
-    sel = tuple(sel)
+    sel = sel_arg(sel)
     add = extra.get('additional_dict') or {}
     if op == 'wp':
         r = call(write_parameters, arg, od + '/wp.txt', select_format=sel, additional=add)
@@ -262,7 +279,7 @@ def fitted_world(sim, sc, out, sel=('A', 0), output_convolved=False, n_data_min=
     names, ap = filter_args(W, sc)
     outp = sim.path('fits.fitinfo')
     text = ''.join(source_line(s) + '\n' for s in sc['sources'])
-    r = call(fit, env.SimReader(sim, text), names, ap, d, outp, n_data_min=n_data_min, output_format=tuple(sel),
+    r = call(fit, env.SimReader(sim, text), names, ap, d, outp, n_data_min=n_data_min, output_format=sel_arg(sel),
              output_convolved=output_convolved, **fitter_kwargs(W, sc))
     if r[0] != 'ok':
         out.discarded = 'setup-fit:' + exc_name(r)
